@@ -152,6 +152,14 @@ def run(c, case):
         conv = it.instantiate(cls(it, 'emsarray.conventions.grid', 'CFGrid1D'), [ds], {})
         return {'wind': [[conc(x) for x in method(it, conv, 'wind_index', n)] for n in range(ny * nx)],
                 'ravel': [conc(method(it, conv, 'ravel_index', (j, i))) for j in range(ny) for i in range(nx)]}
+    if f == 'np_reshape':
+        import numpy
+        vals = numpy.arange(int(numpy.prod(case['shape'])))
+        if case['layout'] == 'F' and len(case['shape']) > 1:
+            a2 = np.transpose(np.asarray(vals.reshape(case['shape'][::-1]).tolist()))
+        else:
+            a2 = np.asarray(vals.reshape(case['shape']).tolist())
+        return {'r': arr_list(a2.reshape(tuple(case['new']), order=case['order']))}
     raise KeyError(f)
 
 
